@@ -272,6 +272,15 @@ class Ref:
         return self.code[self.vm.pc].original.loc.line
 
 
+def calls_of(d):
+    """the debugger's step-over bookkeeping (open calls); a debugger that keeps it elsewhere is observed as -999, which the
+    model never produces: a disagreement of the correspondence, not an error of the machinery"""
+    try:
+        return int(d.calls)
+    except Exception:  # noqa
+        return -999
+
+
 def state_of(vm):
     mem = tuple((a, int(v)) for a, v in enumerate(vm.memory) if v != 0)
     return (tuple(int(r) for r in vm.registers), (vm.flag_sign, vm.flag_zero, vm.flag_overflow, vm.flag_carry, vm.flag_carry_block),
@@ -690,7 +699,7 @@ def full_snapshot(shell):
     d = shell.debugger
     vm = d.vm
     info, _errs, exc, _c = dbg.feed(shell, "info")
-    return {"vm": state_of(vm), "call_stack": tuple((int(a), int(b)) for a, b in vm.expected_returns), "calls": int(d.calls),
+    return {"vm": state_of(vm), "call_stack": tuple((int(a), int(b)) for a, b in vm.expected_returns), "calls": calls_of(d),
             "breakpoints": tuple(sorted((int(k), v) for k, v in d.breakpoints.items())), "info": info if not exc else "info raised " + exc}
 
 
@@ -930,7 +939,7 @@ def render_real(shell):
     vm = d.vm
     vm.settings.warning_count = 0
     sh = -1 if d.finished() else d.op().loc.line
-    return "ok {} {} {} {} {}".format(len(shell.command_history), int(d.calls), proto.w_list(int(k) for k in d.breakpoints), sh,
+    return "ok {} {} {} {} {}".format(len(shell.command_history), calls_of(d), proto.w_list(int(k) for k in d.breakpoints), sh,
                                       proto.w_vm(vm, "", ()))
 
 
